@@ -46,7 +46,8 @@ LEVEL_TEXT = ("Complete operator extraction from every unit image for every enum
               "linearity / convexity; every monomial up to the spline order; all 65 536 binary 4x4 images and all "
               "512 binary 3x3 blocks in 6x6 for the radial reductions and every fraction 0.1..0.9.")
 LEVEL_NOTE = ("Trusted: numpy integer arithmetic, Python Fractions for the zoom grid. Not covered: sizes beyond "
-              "the bounds, non-square input arrays for zoom, off-centre encircled energy.")
+              "the bounds (spot cases at 130-260 pixels only), non-square input arrays for zoom; encircled energy about a "
+              "caller-given centre is covered for 5 centres (pixel centre, integer, arbitrary) on 8- and 12-pixel images.")
 
 TOL_Z = 1e-10
 TOL_R = 1e-12
@@ -99,6 +100,11 @@ def cases(tier):
     yield Case("azimuthal:binary3x3in6x6", {"kind": "azbin", "n": 6, "block": 3, "lo": 0, "hi": 512})
     for n in _ee_sizes(tier):
         yield Case("ee:unit:n=%d" % n, {"kind": "eeunit", "n": n}, n >= 6)
+    for n in ((8, 12) if tier == "quick" else (6, 8, 12, 16)):
+        h = n // 2
+        for cname, c in (("pixel_centre", (h + 0.5, h + 0.5)), ("pixel_centre_x", (h - 0.5, h)), ("integer_off", (h + 1, h - 2)),
+                         ("arbitrary", (h - 1.25, h + 0.7)), ("default_spelled_out", (h, h))):
+            yield Case("ee:unit:n=%d:centre=%s" % (n, cname), {"kind": "eeunit", "n": n, "center": list(c)})
     for lo in range(0, 512, 64):
         yield Case("ee:binary3x3in6x6:codes=%d-%d" % (lo, lo + 63),
                    {"kind": "eebin", "n": 6, "block": 3, "lo": lo, "hi": lo + 64})
@@ -130,7 +136,7 @@ def evaluate(p):
         if k == "azbin":
             return _azbin(p)
         if k == "eeunit":
-            return _eeunit(p["n"])
+            return _eeunit(p["n"], p.get("center"))
         return _eebin(p)
 
 
@@ -416,10 +422,10 @@ class _Diam(object):
         self.n = {}
         self.bad = {}
 
-    def add(self, psf, x, xi, yi, label):
+    def add(self, psf, x, xi, yi, label, center=None):
         calls = 0
         for fr in FRACTIONS:
-            d = psf.encircled_energy(x.copy(), fraction=fr)
+            d = psf.encircled_energy(x.copy(), fraction=fr) if center is None else psf.encircled_energy(x.copy(), fraction=fr, center=list(center))
             calls += 1
             where = numpy.nonzero(xi == d)[0]
             key = "f=%g" % fr
@@ -453,7 +459,9 @@ class _Diam(object):
                     measure=None if bad is None else bad.get("images_failing"))
 
 
-def _eeunit(n):
+def _eeunit(n, center=None):
+    """center=None: the default centre; otherwise the curve and the diameters about a caller-given centre (integer,
+    half-integer = a pixel centre in the corner-origin convention, arbitrary) - every clause is the same"""
     from aotools.image_processing import psf
     import aotools
     o = Out()
@@ -462,7 +470,8 @@ def _eeunit(n):
     grid = [None]
 
     def f(x):
-        xi, yi = psf.encircled_energy(x.copy(), eeDiameter=False)
+        xi, yi = psf.encircled_energy(x.copy(), eeDiameter=False) if center is None else \
+            psf.encircled_energy(x.copy(), center=list(center), eeDiameter=False)
         if grid[0] is None:
             grid[0] = numpy.array(xi)
         elif not numpy.array_equal(grid[0], xi):
@@ -484,7 +493,7 @@ def _eeunit(n):
         worst["ee_at_least_zero"] = max(worst["ee_at_least_zero"], -float(yi.min()))
         x = numpy.zeros((n, n))
         x.flat[k] = 1.0
-        o.stat("lib_calls", dm.add(psf, x, xi, yi, "unit pixel %d" % k))
+        o.stat("lib_calls", dm.add(psf, x, xi, yi, "unit pixel %d" % k, center))
     for cl, v in worst.items():
         o.check(cl, v <= TOL_R, measure=max(v, 0.0), tol=TOL_R, n=n * n)
     # convexity / normalisation on dense non-negative images, positive scaling invariance
@@ -509,7 +518,7 @@ def _eeunit(n):
             o.close("ee_independent_of_storage_dtype", _maxabs(yq - yf), 1e-6 if dt is numpy.float32 else TOL_R,
                     sub="dense%d:%s" % (k, numpy.dtype(dt).name))
             _curve_clauses(o, xi, yq, "dense%d:%s" % (k, numpy.dtype(dt).name))
-        o.stat("lib_calls", 1 + dm.add(psf, x, xi, yi, "dense%d" % k))
+        o.stat("lib_calls", 1 + dm.add(psf, x, xi, yi, "dense%d" % k, center))
     dm.flush(o)
     o.outcome(E.round(12))
     return o
@@ -603,6 +612,25 @@ def _large(p):
         xi, yi = psf.encircled_energy(d.copy(), eeDiameter=False)
         _curve_clauses(o, numpy.asarray(xi), numpy.asarray(yi), "large:n=%d" % n)
         o.stat("lib_calls", 3)
+    # call histories on one caller-owned image: handed over again unchanged, and again after an in-place edit
+    from mc import variants
+    im = numpy.fromfunction(lambda y, x: (y * 5 + x * 3) % 7 + 0.5 * y + 1.0, (8, 8))
+    hist = {"binImgs": lambda a: interpolation.binImgs(a, 2), "azimuthal_average": lambda a: psf.azimuthal_average(a),
+            "encircled_energy": lambda a: numpy.concatenate([numpy.ravel(v) for v in psf.encircled_energy(a, eeDiameter=False)]),
+            "ee_diameter": lambda a: numpy.array([psf.encircled_energy(a)])}
+    for fn_name in ("zoom_rbs", "zoom"):
+        for order in (1, 3):
+            hist["%s:order=%d:same" % (fn_name, order)] = lambda a, f_=fn_name, o_=order: getattr(interpolation, f_)(a, (8, 8), order=o_)
+            hist["%s:order=%d:15" % (fn_name, order)] = lambda a, f_=fn_name, o_=order: getattr(interpolation, f_)(a, (15, 15), order=o_)
+    k = 0
+    for name, f in hist.items():
+        try:
+            f(im.copy())
+        except NotImplementedError:
+            continue
+        k += variants.check_reuse(o, "image", f, im, 1e-12, sub=name,
+                                  mutate=lambda a: a.__setitem__(Ellipsis, a[::-1, :].copy() * 1.5 + 2.0))
+    o.stat("lib_calls", k)
     z = numpy.fromfunction(lambda y, x: 0.5 * y - 0.25 * x + 0.01 * y * x, (70, 70))
     for fn_name in ("zoom_rbs", "zoom"):
         try:
